@@ -97,7 +97,7 @@ def overapprox_probs(spec, lg, r):
     from maltoolbox.attackgraph import AttackGraph
     probs = []
     fac = LanguageClassesFactory(lg)
-    for _ in range(2):
+    for _ in range(4):
         inst = gen_model(r, spec)
         m, _ = build_model(fac, inst)
         g = AttackGraph(lg, m)
@@ -119,7 +119,7 @@ def run(seed, tier, lean) -> Result:
                       '(field, field, type, type) quadruples in both orientations, link mirroring; ill-formed mutants (unknown super asset, association '
                       'end(s), field, step target) must raise; for two random valid models every attack-graph edge must be predicted by a language-graph '
                       'link; compared with an independent reference and the Lean model; non-trivial = inheritance depth >= 2 and an association on an ancestor')
-    n = 200 if tier == 'quick' else 1200
+    n = 300 if tier == 'quick' else 1800
     cases = []
     for i in range(n):
         r = random.Random(rnd.getrandbits(48))
@@ -127,7 +127,7 @@ def run(seed, tier, lean) -> Result:
         # Router`): fine for the language graph and its lookups; no class / model can be built for them (KF-C06-1), so
         # the over-approximation part is skipped for these
         same_ends = i % 5 == 4
-        spec = LangGen(r, knobs={'sibling_sets': True, 'dup_assoc_names': 0.4, **({'same_field_both_ends': 0.6} if same_ends else {})}).gen()
+        spec = LangGen(r, knobs={'sibling_sets': True, 'dup_assoc_names': 0.4, 'subtype': 0.8, **({'same_field_both_ends': 0.6} if same_ends else {})}).gen()
         same_ends = same_ends and any(d['leftField'] == d['rightField'] for d in spec['associations'])
         fields = sorted({d['leftField'] for d in spec['associations']} | {d['rightField'] for d in spec['associations']})
         types = [a['name'] for a in spec['assets']]
